@@ -142,3 +142,5 @@ def run(ctx):
     # the SHIPPED stacks (PANOC with LBFGS / StructuredLBFGS / Anderson / Noop providers inside the model): refinement of the oracle model + whole runs
     from vf.props import PANOCDIR
     PANOCDIR.attach(ctx, extra_oracle=on_run)
+    from vf.props import ZEROFPRDIR
+    ZEROFPRDIR.attach(ctx, extra_oracle=on_run)
